@@ -186,7 +186,21 @@ class Origins:
         if isinstance(target, ast.Name):
             return val if target.id == name else None
         if isinstance(target, (ast.Tuple, ast.List)):
+            star = next((i for i, el in enumerate(target.elts) if isinstance(el, ast.Starred)), None)
             for k, el in enumerate(target.elts):
+                if star is not None:
+                    # a, *rest, z = seq: what precedes the star counts from the front, what follows from the back, the star is a slice
+                    if k < star:
+                        sub = ("item", val, k)
+                    elif k > star:
+                        sub = ("item", val, k - len(target.elts))
+                    else:
+                        sub = ("slice", val, star, star + 1 - len(target.elts))
+                        el = el.value
+                    r = self._unpack(el, sub, name)
+                    if r is not None:
+                        return r
+                    continue
                 if val[0] == "tuple" and len(val[1]) == len(target.elts):
                     sub = val[1][k]
                 elif val[0] == "comp" and len(val) > 3 and val[3] in self.comp_nodes and len(self.comp_nodes[val[3]][0].generators) == 1 \
